@@ -217,8 +217,26 @@ def _arena_pipeline_rest(tier, focus, variants, key, t0, thorough, wd, bins, mc,
     if focus in FOCUSED:
         nnum = 3000 if thorough else 300
     nsim, sim = simulate("Sim_Arena_full.cfg" if thorough else "Sim_Arena.cfg", nnum, 45, beh, workers=6, timeout=2400, focus=focus)
+    ngrid = 0
+    if focus == "general":
+        # boundary grid: EVERY behaviour "constructor ; one allocation leaving a residue ; one request sized to the free space of
+        # the current chunk exactly / one less / one more ; finalise" (MC_Arena GridSpec), emitted by exhaustive model checking
+        gr = tlc("MC_Arena", "MC_Arena_grid.cfg", workers=6, timeout=1500, xmx="8g")
+        if gr.error:
+            raise ToolError("MC_Arena_grid failed: %s\n%s" % (gr.error, gr.out[-3000:]))
+        gpath = os.path.join(wd, "grid.ndjson")
+        ngrid = extract_behaviours(gr.out, gpath, start_id=nsim + 1)
+        if ngrid == 0:
+            raise ToolError("MC_Arena_grid produced no behaviours")
+        with open(beh, "a") as out, open(gpath) as g:
+            shutil.copyfileobj(g, out)
+        os.unlink(gpath)
+        del gr
     # 3. replay
     obs = os.path.join(wd, "obs.ndjson")
+    if focus == "fail" and variants == "trait":
+        # failure handling is also evaluated on the panicking twins (capacity overflow is an unwinding panic there)
+        variants = "trait,panicking"
     stats, crashes = replay(bins["replay"], beh, obs, variants)
     # 4. contract evaluation by TLC
     results, parts, d = tlc_obs("ArenaObs", "ArenaObs.cfg", obs, nparts=12, timeout=3000, xmx="6g")
@@ -235,7 +253,7 @@ def _arena_pipeline_rest(tier, focus, variants, key, t0, thorough, wd, bins, mc,
     if mc2 is not None:
         mc.distinct += mc2.distinct
         mc.generated += mc2.generated
-    return {"wd": wd, "beh": beh, "obs": obs, "mc": mc, "nsim": nsim, "stats": stats, "crashes": crashes, "bad": bad,
+    return {"wd": wd, "beh": beh, "obs": obs, "mc": mc, "nsim": nsim + ngrid, "ngrid": ngrid, "stats": stats, "crashes": crashes, "bad": bad,
             "drift": drift, "aborted": aborted, "checked": checked, "counters": counters, "wall": time.time() - t0, "variants": variants}
 
 
@@ -322,7 +340,7 @@ def check_arena_property(pid, tier, focus="general"):
         "samples": samples,
         "steps_checked": P["checked"], "model_drift_steps": len(P["drift"]), "behaviours_aborted_by_interpreter": len(P.get("aborted", [])),
         "replayer_crashes": len(P["crashes"]),
-        "behaviours_emitted": P["nsim"], "behaviours_skipped_not_compiled": P["stats"]["skipped"],
+        "behaviours_emitted": P["nsim"], "of_which_exhaustive_boundary_grid": P.get("ngrid", 0), "behaviours_skipped_not_compiled": P["stats"]["skipped"],
         "entry_point_variants": P["variants"].split(","), "counters": P["counters"], "focused_action_mix": P.get("focus_mix", "none"),
         **extra_cov,
         "mc_depth": P["mc"].depth, "pipeline_wall_s": round(P["wall"], 1), "pipeline_result_reused_from_cache": P.get("cached", False),
